@@ -301,7 +301,7 @@ def run_scenarios(funcs, scen, timeout, workers=6):
     from concurrent.futures import ThreadPoolExecutor
     out = {}
     with ThreadPoolExecutor(max_workers=workers) as ex:
-        futs = {name: ex.submit(_scenario, funcs, name, *args[:6], timeout, args[6] if len(args) > 6 else None) for name, args in scen.items()}
+        futs = {name: ex.submit(_scenario, funcs, name, *args[:6], (args[7] if len(args) > 7 and args[7] else timeout), args[6] if len(args) > 6 else None) for name, args in scen.items()}
         for name, f in futs.items():
             try:
                 out[name] = f.result()
